@@ -108,11 +108,23 @@ impl ReadCase {
 
 /// Run every allowed read variant from the same reader state and compare
 /// (value, position, following 16 bits) with the model and with each other.
+fn prefix_pos(prefix: &[ROp]) -> usize {
+    let mut p = 0usize;
+    for op in prefix {
+        match op {
+            ROp::Read(n) | ROp::Skip(n) => p += n,
+            ROp::Seek(q) => p = *q as usize,
+            _ => {}
+        }
+    }
+    p
+}
+
 pub fn check_read(c: &ReadCase, rep: &mut Report) {
     let e = c.cfg.e;
     let zext = c.cfg.be.zext();
     let bits = bits_of_image(&c.image, e);
-    let p0 = pos_after(&c.prefix);
+    let p0 = prefix_pos(&c.prefix);
     let expected = match decode(&bits, p0, e, c.table.code()) {
         Some(x) => x,
         None => {
@@ -138,6 +150,7 @@ pub fn check_read(c: &ReadCase, rep: &mut Report) {
                 ROp::Read(n) => guard(|| h.r.read_bits(*n).map(|_| ())),
                 ROp::Peek(n) => guard(|| h.r.peek_bits(*n).map(|_| ())),
                 ROp::Skip(n) => guard(|| h.r.skip_bits(*n)),
+                ROp::Seek(q) => guard(|| h.r.set_bit_pos(*q).unwrap()),
                 _ => Out::Ok(()),
             };
             ok &= r.is_ok();
@@ -198,6 +211,7 @@ pub fn check_read(c: &ReadCase, rep: &mut Report) {
                 ROp::Read(n) => guard(|| h.r.read_bits(*n).map(|_| ())),
                 ROp::Peek(n) => guard(|| h.r.peek_bits(*n).map(|_| ())),
                 ROp::Skip(n) => guard(|| h.r.skip_bits(*n)),
+                ROp::Seek(q) => guard(|| h.r.set_bit_pos(*q).unwrap()),
                 _ => Out::Ok(()),
             };
         }
@@ -346,6 +360,30 @@ fn patterns(ctx: &Ctx, e: En, t: Table, kind: RKind, rep: &mut Report) {
                 if idx % 997 == 313 && si == 0 {
                     rep.sample(|| c.to_kv());
                 }
+            }
+        }
+    }
+    // the same patterns reached by seeking back to them after the reader has been elsewhere (the
+    // buffer then held other bits): aligned and unaligned targets, from before and from beyond
+    if ctx.tier != Tier::Tiny {
+        let targets = [0usize, w, 2 * w, 1, w - 1, w + 1, w + w / 2];
+        for idx in (0..npat).step_by(if ctx.tier == Tier::Thorough { 1 } else { 3 }) {
+            let tsel: Vec<usize> = if ctx.tier == Tier::Thorough { (0..targets.len()).collect() } else { vec![idx % targets.len(), (idx / 7 + 1) % 3] };
+            for ti in tsel {
+                let p0 = targets[ti];
+                let walk = [1usize, w / 2, w + 3, 2 * w + 1][(idx + ti) % 4];
+                let mut bits: Bits = (0..p0).map(|_| (rng.next() & 1) as u8).collect();
+                push_bits(&mut bits, e, idx as u64, rb);
+                for k in 0..(200 + 4 * w) {
+                    bits.push(if (idx + ti) % 2 == 0 { 1 } else { ((rng.next() >> (k % 7)) & 1) as u8 });
+                }
+                let img = image(&bits, e, wb);
+                let be = RBackend::ALL[(idx + ti) % RBackend::ALL.len()];
+                let prefix = if (idx + ti) % 3 == 0 { vec![ROp::Read((p0 + walk).min(64)), ROp::Skip((p0 + walk).saturating_sub(64)), ROp::Seek(p0 as u64)] } else { vec![ROp::Skip(p0 + walk), ROp::Peek(kind.peek_limit().min(w)), ROp::Seek(p0 as u64)] };
+                let c = ReadCase { cfg: RCfg { e, kind, be }, table: t, image: img, prefix, what: format!("pattern={:#x},after-seek-to={},walked={}", idx, p0, walk) };
+                check_read(&c, rep);
+                rep.case(&(t, e, idx, kind, "seek", ti));
+                rep.count("table_reads_right_after_a_seek", 1);
             }
         }
     }
